@@ -8,10 +8,14 @@ Scenario = list of operations (tokens, all numbers hex):
   :C <f> <k> item{k} <want 0|1>                  actualCall("f<f>") followed by the items in this order
         item ::= :in <p> <value> | :out <o> $bytes(8: the caller's buffer before the call) | :obj <addr>
   :en  :dis  :left                               enable / disable / expectedCallsLeft (answer is observed)
+  :post                                          the end-of-test check of MockSupportPlugin::postTestAction (on mock(): the real plugin;
+                                                 on a scope: checkExpectations() with a reporter that records and returns, then clear());
+                                                 every failure it delivers is observed
   :s <n> <op>                                    the operation is made on the named scope mock("s<n>") instead of mock()
   value ::= :b 0|1 | :i <ty 0..5> <z> | :s $bytes | :p <addr>
 Observation: <fail: ~ | opindex :kind a b  nUnf (exp act)*  nFul (exp act)*>  nRets (<:n | value>)*  nOuts ($bytes)*  nLeft (0|1)*
-(output buffers of every completed actual call in the order they were passed).
+             nPost (:kind a b  nUnf (exp act)*  nFul (exp act)*)*
+(output buffers of every completed actual call in the order they were passed; nPost: the failures of the :post checks).
 The scenario stops at its first failure (the reporter leaves the test); mock().clear() afterwards."""
 import itertools
 from vlib import tz, tb
@@ -33,6 +37,14 @@ RULE = ("expectation sets of 1-6 expectations over 1-3 function names, 0-3 param
         "mutation in one scope (so that exactly one scope, first / middle / last created, deviates), strictOrder / ignoreOtherCalls on "
         "mock() before and after a scope exists and on single scopes; non-canonical: expectedCallsLeft, scope-level checkExpectations "
         "and clear, global clear, disable/enable in the middle. "
+        "End of test through the plugin (:post instead of :chk, reporter does not leave): a share of every canonical family, and a "
+        "systematic family over 2-3 scopes in every creation order where the LAST actual call of one scope (each in turn: global, "
+        "first / middle / last created) lacks an input parameter, an output parameter or the object while the other scopes are "
+        "fine, have an unfulfilled expectation, an incomplete last call of their own, or (strict) calls out of order -- the number "
+        "of failures delivered and their diagnoses are judged. Outputs under ignoreOtherParameters: 1-3 expectations on one "
+        "function with ignoreOtherParameters, 1-2 output parameters with their own bytes, distinct return values, 0-1 distinguishing "
+        "input; each call passes the expected items plus 1-2 ignored output / input parameters (and optionally an object) in every "
+        "order (<= 4 items) or sampled orders, return value asked for; also mixed with expectations that do not ignore. "
         "non-trivial = at least one expectation and one actual call")
 ASSUMPTIONS = ["LP64 data model", "function and parameter names are distinct non-empty strings without special characters",
                "no custom types / comparators / copiers (..OfType), tracing off, scopes one level deep (mock(\"name\"))",
@@ -427,6 +439,136 @@ def gen_scopes(rng, tier, out):
         out.append(join(cfg + etoks + ctoks))
 
 
+PMUT = ["missing_in", "missing_out", "drop_obj"]
+
+
+def gen_post(rng, tier, out):
+    """End-of-test check through the plugin: the last actual call of one scope is incomplete while the others are fine / deviate too."""
+    nsets = 36 if tier == "quick" else 1200
+    layouts = [[0, 1], [1, 0], [1, 2], [0, 1, 2], [1, 0, 2], [2, 1, 0], [1, 2, 3], [0, 2], [2, 1]]
+    for k in range(nsets):
+        scopes = layouts[k % len(layouts)]
+        strict = (k % 4 == 3)
+        cfg = [":strict"] if strict else []
+        per = {}
+        for s in scopes:
+            f = rng.randrange(2)
+            ps = [(n, rng.choice(VALUES)) for n in rng.sample(range(3), rng.choice([1, 1, 2]))]
+            outs = [(0, rbytes(rng, rng.choice([1, 2, 4])))] if rng.random() < 0.4 else []
+            obj = rng.choice(OBJS) if rng.random() < 0.35 else None
+            ex = [(1, f, ps, outs, obj, rng.choice(RETS) if rng.random() < 0.5 else None, False)]
+            if rng.random() < 0.5:       # a second expectation: another function or the same one with another value
+                if rng.random() < 0.5:
+                    ex.append((rng.choice([1, 2]), f + 2, [], [], None, None, False))
+                else:
+                    ps2 = list(ps)
+                    ps2[0] = (ps2[0][0], rng.choice([v for v in VALUES if v != ps2[0][1]]))
+                    ex.append((1, f, ps2, list(outs), obj, rng.choice(RETS), False))
+            per[s] = ex
+        etoks = [in_scope(s, expx_tok(e)) for s in scopes for e in per[s]]
+        calls = {s: matching_callsx(rng, per[s], shuffle=True) for s in scopes}
+
+        def emit(cl, tail=":post"):
+            ctoks = interleave(rng, [[in_scope(s, callx_tok(c)) for c in cl[s]] for s in scopes])
+            out.append(join(cfg + etoks + ctoks + [tail]))
+
+        def incomplete(s, cl):
+            """the last call of scope s loses a parameter / the object and does not ask for its return value"""
+            c = list(cl[s])
+            if not c:
+                return None
+            f, its, w = c[-1]
+            kinds = [m for m in PMUT if (m == "missing_in" and any(i[0] == "in" for i in its)) or
+                     (m == "missing_out" and any(i[0] == "out" for i in its)) or (m == "drop_obj" and any(i[0] == "obj" for i in its))]
+            if not kinds:
+                return None
+            c2 = mutatex(rng, c, rng.choice(kinds), len(c) - 1)
+            f, its, w = c2[-1]
+            c2[-1] = (f, its, False)
+            d = dict(cl)
+            d[s] = c2
+            return d
+        emit(calls)
+        emit(calls, ":chk")
+        for v in scopes:                      # exactly one scope's last call is incomplete
+            d = incomplete(v, calls)
+            if d:
+                emit(d)
+                if rng.random() < 0.3:
+                    emit(d, ":chk")
+                for u in scopes:              # ... and another scope deviates too
+                    if u == v:
+                        continue
+                    d2 = incomplete(u, d)
+                    if d2 and rng.random() < 0.7:
+                        emit(d2)
+                    if d[u]:
+                        d3 = dict(d)
+                        d3[u] = mutatex(rng, d[u], "drop", rng.randrange(len(d[u])))
+                        emit(d3)
+                    if strict and len(d[u]) > 1:
+                        d4 = dict(d)
+                        d4[u] = mutatex(rng, d[u], "swap", 0)
+                        emit(d4)
+        u = rng.choice(scopes)                # no incomplete call: unfulfilled / out of order only
+        if calls[u]:
+            d = dict(calls)
+            d[u] = mutatex(rng, calls[u], "drop", rng.randrange(len(calls[u])))
+            emit(d)
+        if strict and len(calls[u]) > 1:
+            d = dict(calls)
+            d[u] = mutatex(rng, calls[u], "swap", 0)
+            emit(d)
+        if rng.random() < 0.3:                # the check made on a scope only
+            out.append(join(cfg + etoks + interleave(rng, [[in_scope(s, callx_tok(c)) for c in calls[s]] for s in scopes]) +
+                            [in_scope(rng.choice(scopes), ":post"), ":post"]))
+
+
+def gen_ign_outs(rng, tier, out):
+    """Output parameters of the consumed expectation under ignoreOtherParameters, whatever else the call passes, in every order."""
+    nsets = 40 if tier == "quick" else 1500
+    for k in range(nsets):
+        s = rng.choice([0, 0, 1])
+        nexp = rng.choice([1, 1, 2, 3])
+        out_names = rng.sample(range(2), rng.choice([1, 1, 2]))
+        key = rng.choice([None, 0, 1])          # the input parameter that tells the expectations apart
+        vals = rng.sample(VALUES[4:], nexp)
+        rets = rng.sample(RETS, nexp)
+        exps = []
+        for i in range(nexp):
+            ps = [(key, vals[i])] if key is not None else []
+            outs = [(n, rbytes(rng, rng.choice([1, 2, 4, 4, 8]))) for n in out_names]
+            ign = True if (k % 5 != 4) else (rng.random() < 0.5)     # every fifth set mixes in expectations that do not ignore
+            exps.append((1, 0, ps, outs, None, rets[i], ign))
+        etoks = [in_scope(s, expx_tok(e)) for e in exps]
+        base = []
+        for (n, f, ps, outs, obj, ret, ign) in exps:
+            its = [("in", p, v) for p, v in ps] + [("out", o, filler(rng)) for o, _ in outs]
+            base.append((f, its, True, ign))
+        extras_pool = [("out", 2, filler(rng)), ("out", 3, filler(rng)), ("in", 3, rng.choice(VALUES)), ("in", 4, rng.choice(VALUES)),
+                       ("obj", rng.choice(OBJS))]
+        for rnd in range(2 if tier == "quick" else 3):
+            j = rng.randrange(len(base))
+            f, its, w, ign = base[j]
+            extras = rng.sample(extras_pool[:4], rng.choice([1, 1, 2])) + ([extras_pool[4]] if rng.random() < 0.15 else [])
+            full = its + extras
+            perms = list(itertools.permutations(full)) if len(full) <= 4 else [tuple(rng.sample(full, len(full))) for _ in range(10)]
+            if len(perms) > 12:
+                perms = rng.sample(perms, 12) + [tuple(extras + its)]       # always: the ignored ones first
+            for pm in perms:
+                calls = []
+                for i2, (f2, its2, w2, ign2) in enumerate(base):
+                    if i2 == j:
+                        calls.append((f2, list(pm), True if rng.random() < 0.85 else False))
+                    else:
+                        e2 = rng.sample(extras_pool[:4], rng.choice([0, 1])) if ign2 else []
+                        q = its2 + e2
+                        rng.shuffle(q)
+                        calls.append((f2, q, rng.random() < 0.8))
+                rng.shuffle(calls)
+                out.append(join(etoks + [in_scope(s, callx_tok(c)) for c in calls] + [rng.choice([":chk", ":chk", ":post"])]))
+
+
 def generate(tier, rng):
     out = []
     nsets = 170 if tier == "quick" else 3500
@@ -469,6 +611,15 @@ def generate(tier, rng):
             out.append(join([exp_tok(e) for e in exps] + [call_tok(c) for c in inorder]))   # no final check
     gen_objects(rng, tier, out)
     gen_scopes(rng, tier, out)
+    # a share of the canonical scenarios with the plugin's end-of-test check instead of the explicit one
+    prng = __import__("random").Random(rng.randrange(1 << 30))
+    extra = []
+    for sc in out:
+        if sc.endswith(" :chk") and sc.count(":chk") == 1 and ":left" not in sc and prng.random() < (0.12 if tier == "quick" else 0.2):
+            extra.append(sc[:-4] + ":post")
+    out += extra
+    gen_post(rng, tier, out)
+    gen_ign_outs(rng, tier, out)
     return out
 
 
@@ -476,7 +627,7 @@ def toks(s):
     return s.split()
 
 
-OPS0 = (":chk", ":clr", ":strict", ":ign", ":en", ":dis", ":left")
+OPS0 = (":chk", ":clr", ":strict", ":ign", ":en", ":dis", ":left", ":post")
 
 
 def read_value(t, i):
@@ -593,7 +744,11 @@ def classify(s):
         labs.append("expectedCallsLeft")
     if ":dis" in t:
         labs.append("disable")
-    if t.count(":chk") != 1 or t[-1] != ":chk" or ":left" in t or ":dis" in t or ":en" in t:
+    if ":post" in t:
+        labs.append("plugin-end-of-test")
+    if any(o[0] == "E" and o[7] for _, o in parse_ops(s)):
+        labs.append("ignoreOtherParameters")
+    if t.count(":chk") + t.count(":post") != 1 or t[-1] not in (":chk", ":post") or ":left" in t or ":dis" in t or ":en" in t:
         labs.append("non-canonical")
     return labs
 
@@ -602,8 +757,25 @@ def signature(s, o):
     ot = o.split()
     kind = "pass" if ot and ot[0] == "~" else (ot[1] if len(ot) > 1 else "?")
     t = toks(s)
-    return "%s %s%s%s" % ("strict" if ":strict" in t else "any-order", kind, " scopes" if len(set(sc for sc, _ in parse_ops(s))) > 1 else "",
-                          " objects/outputs" if (":obj" in t or ":out" in t) else "")
+    if ":post" in t and kind == "pass":       # what the end-of-test check delivered
+        n = post_count(ot)
+        kind = "post=%s" % ("?" if n is None else n)
+    return "%s %s%s%s%s" % ("strict" if ":strict" in t else "any-order", kind, " scopes" if len(set(sc for sc, _ in parse_ops(s))) > 1 else "",
+                            " objects/outputs" if (":obj" in t or ":out" in t) else "", " post" if ":post" in t else "")
+
+
+def post_count(ot):
+    """number of failures the :post checks delivered, from the tokens of an observation that did not fail"""
+    try:
+        i = 1
+        n = int(ot[i], 16); i += 1
+        for _ in range(n):
+            i += 1 if ot[i] == ":n" else (3 if ot[i] == ":i" else 2)
+        n = int(ot[i], 16); i += 1 + n
+        n = int(ot[i], 16); i += 1 + n
+        return int(ot[i], 16)
+    except Exception:
+        return None
 
 
 def shrink(s):
